@@ -26,7 +26,9 @@ macro_rules! dispatch {
         match $id {
             "C03" => runner::$f::<props::c03::C03>($($arg),*),
             "C04" => runner::$f::<props::c04::C04>($($arg),*),
+            "C10" => runner::$f::<props::c10::C10>($($arg),*),
             "C11" => runner::$f::<props::c11::C11>($($arg),*),
+            "C14" => runner::$f::<props::c14::C14>($($arg),*),
             "C19" => runner::$f::<props::c19::C19>($($arg),*),
             other => {
                 eprintln!("HARNESS-ERROR: unknown property {}", other);
